@@ -1,14 +1,19 @@
 // Harness for C20 (allocator contracts).
-//  part A: correspondence of mempool.MemPool with the Coq model (oracle answers derived from
-//          what the implementation returned: which pooled pointer, which capacity);
-//  part B: the property oracle on the implementation alone for the three allocators
-//          (length, content preservation, live buffers pairwise disjoint, frame).
+//
+//	part A: correspondence of mempool.MemPool with the Coq model (oracle answers derived from
+//	        what the implementation returned: which pooled pointer, which capacity);
+//	part B: the property oracle on the implementation alone for the three allocators
+//	        (length, content preservation, live buffers pairwise disjoint, frame);
+//	part C / part D (lockstep.go): correspondence of mempool.AlignedAllocator / mempool.stdAllocator with their Coq models;
+//	-gen FILE: write coq/mempool/GenMempool.v (the real alignedIndexes table and constants; needs -tags verifgen + overlay).
 package main
 
 import (
 	"flag"
 	"fmt"
 	"math/rand"
+	"os"
+	"time"
 	"unsafe"
 
 	"github.com/lesismal/nbio/mempool"
@@ -232,65 +237,73 @@ func partB(rep *hx.Report, seed int64, nprog int) {
 		nsteps := 40 + r.Intn(100)
 		for step := 0; step < nsteps && !bad; step++ {
 			rep.Ops++
-			switch k := r.Intn(12); {
-			case k < 4 || len(live) == 0:
-				size := sizes[r.Intn(len(sizes))]
-				trace = append(trace, opRec{"malloc", -1, size})
-				p := a.Malloc(size)
-				if len(*p) != size {
-					fail("malloc-len", fmt.Sprintf("Malloc(%d) returned len %d", size, len(*p)))
-					break
-				}
-				r.Read(*p)
-				live = append(live, &lbuf{p, append([]byte{}, *p...)})
-				verify("malloc")
-				rep.Stat("B." + names[kind] + ".malloc")
-			case k < 7:
-				i := r.Intn(len(live))
-				l := live[i]
-				more := make([]byte, sizes[r.Intn(len(sizes))]%3000)
-				r.Read(more)
-				trace = append(trace, opRec{"append", i, len(more)})
-				if k == 6 {
-					l.p = a.AppendString(l.p, string(more))
-				} else {
-					l.p = a.Append(l.p, more...)
-				}
-				l.shadow = append(l.shadow, more...)
-				verify("append")
-				rep.Stat("B." + names[kind] + ".append")
-			case k < 10:
-				i := r.Intn(len(live))
-				l := live[i]
-				size := sizes[r.Intn(len(sizes))]
-				trace = append(trace, opRec{"realloc", i, size})
-				l.p = a.Realloc(l.p, size)
-				if len(*l.p) != size {
-					fail("realloc-len", fmt.Sprintf("Realloc(%d) returned len %d", size, len(*l.p)))
-					break
-				}
-				n := len(l.shadow)
-				if size < n {
-					n = size
-				}
-				for j := 0; j < n; j++ {
-					if (*l.p)[j] != l.shadow[j] {
-						fail("realloc-content", fmt.Sprintf("Realloc(%d) lost byte %d of the old contents", size, j))
+			func() {
+				// a panic inside the allocator is a failure of the contract (no buffer comes back), not a harness crash
+				defer func() {
+					if e := recover(); e != nil {
+						fail("panic", fmt.Sprintf("operation %d of the program panicked: %v", len(trace), e))
+					}
+				}()
+				switch k := r.Intn(12); {
+				case k < 4 || len(live) == 0:
+					size := sizes[r.Intn(len(sizes))]
+					trace = append(trace, opRec{"malloc", -1, size})
+					p := a.Malloc(size)
+					if len(*p) != size {
+						fail("malloc-len", fmt.Sprintf("Malloc(%d) returned len %d", size, len(*p)))
 						break
 					}
+					r.Read(*p)
+					live = append(live, &lbuf{p, append([]byte{}, *p...)})
+					verify("malloc")
+					rep.Stat("B." + names[kind] + ".malloc")
+				case k < 7:
+					i := r.Intn(len(live))
+					l := live[i]
+					more := make([]byte, sizes[r.Intn(len(sizes))]%3000)
+					r.Read(more)
+					trace = append(trace, opRec{"append", i, len(more)})
+					if k == 6 {
+						l.p = a.AppendString(l.p, string(more))
+					} else {
+						l.p = a.Append(l.p, more...)
+					}
+					l.shadow = append(l.shadow, more...)
+					verify("append")
+					rep.Stat("B." + names[kind] + ".append")
+				case k < 10:
+					i := r.Intn(len(live))
+					l := live[i]
+					size := sizes[r.Intn(len(sizes))]
+					trace = append(trace, opRec{"realloc", i, size})
+					l.p = a.Realloc(l.p, size)
+					if len(*l.p) != size {
+						fail("realloc-len", fmt.Sprintf("Realloc(%d) returned len %d", size, len(*l.p)))
+						break
+					}
+					n := len(l.shadow)
+					if size < n {
+						n = size
+					}
+					for j := 0; j < n; j++ {
+						if (*l.p)[j] != l.shadow[j] {
+							fail("realloc-content", fmt.Sprintf("Realloc(%d) lost byte %d of the old contents", size, j))
+							break
+						}
+					}
+					r.Read((*l.p)[n:])
+					l.shadow = append([]byte{}, *l.p...)
+					verify("realloc")
+					rep.Stat("B." + names[kind] + ".realloc")
+				default:
+					i := r.Intn(len(live))
+					trace = append(trace, opRec{"free", i, 0})
+					a.Free(live[i].p)
+					live = append(live[:i], live[i+1:]...)
+					verify("free")
+					rep.Stat("B." + names[kind] + ".free")
 				}
-				r.Read((*l.p)[n:])
-				l.shadow = append([]byte{}, *l.p...)
-				verify("realloc")
-				rep.Stat("B." + names[kind] + ".realloc")
-			default:
-				i := r.Intn(len(live))
-				trace = append(trace, opRec{"free", i, 0})
-				a.Free(live[i].p)
-				live = append(live[:i], live[i+1:]...)
-				verify("free")
-				rep.Stat("B." + names[kind] + ".free")
-			}
+			}()
 		}
 		rep.Case(fmt.Sprintf("B%d", pseed), len(trace) > 3)
 		if pi < 3 {
@@ -308,10 +321,28 @@ func main() {
 	n := flag.Int("n", 300, "programs per part")
 	model := flag.String("model", "", "path of the extracted model")
 	out := flag.String("out", "-", "")
+	gen := flag.String("gen", "", "write coq/mempool/GenMempool.v (tables of the real aligned allocator) and exit; needs -tags verifgen and the overlay")
 	flag.Parse()
+	if *gen != "" {
+		body, err := genMempoolV()
+		if err != nil {
+			hx.Fatal("gen: %v", err)
+		}
+		if err := os.WriteFile(*gen, []byte(body), 0o644); err != nil {
+			hx.Fatal("gen: %v", err)
+		}
+		return
+	}
 	rep := hx.NewReport("mempool", *seed)
-	rep.Rule = "random allocator programs (Malloc/Append/AppendString/Realloc/Free over sizes 0,1,2^k-1,2^k,2^k+1, above the free threshold); a program is non-trivial when it has more than 3 operations; distinct = distinct PRNG seeds"
-	partA(rep, *model, *seed, *n)
-	partB(rep, *seed, *n*3)
+	rep.Rule = "random allocator programs (Malloc/Append/AppendString/Realloc/Free over sizes 0,1,2^k-1,2^k,2^k+1, above the free threshold; parts C/D: lock step of the aligned / std allocator with their models, sizes aimed at 0, 1, 31..33, every bucket size -1/0/+1, the lowest size of a bucket, 32767..32769, 40000..70001, appends that exactly fill / overflow the capacity by one, one focus bucket per program); a program is non-trivial when it has more than 3 operations; distinct = distinct PRNG seeds"
+	timed := func(name string, f func()) {
+		t0 := time.Now()
+		f()
+		rep.Extra["wall_s_part_"+name] = time.Since(t0).Seconds()
+	}
+	timed("A", func() { partA(rep, *model, *seed, *n) })
+	timed("C", func() { partC(rep, *model, *seed, *n/4) })
+	timed("D", func() { partD(rep, *model, *seed, *n/4) })
+	timed("B", func() { partB(rep, *seed, *n*3) })
 	rep.Write(*out)
 }
